@@ -42,6 +42,11 @@ def minList : List Int → Int
 /-- least occurrence strictly after `r` of ANY of the listed timings -/
 def unionNext (tms : List Timing) (r : Int) : Int := minList (tms.map (fun tm => nextOcc tm r))
 
+/-- the `n`-th successor of `r` in the union schedule -/
+def iterNext (tms : List Timing) : Nat → Int → Int
+  | 0, r => r
+  | n + 1, r => iterNext tms n (unionNext tms r)
+
 /-- `dues` is the ascending enumeration, without omission or repetition, of the union of the
     occurrences of `tms` after `start` -/
 def enumB (tms : List Timing) (start : Int) : List Int → Bool
